@@ -13,7 +13,7 @@ use serde_json::{json, Value};
 const POSITION: &[&str] = &["middle", "only", "first", "last"];
 const TRAILING: &[&str] = &["LF", "SP", "none-after-last", "CRLF"];
 const FILTER: &[&str] = &["none", "flate", "hex", "a85+flate", "lzw"];
-const PAD: &[&str] = &["first-at-header-end", "first-beyond-header"];
+const PAD: &[&str] = &["first-at-header-end", "first-beyond-header", "first-member-directly-after-the-last-offset"];
 const NEIGH: &[&str] = &["dict", "int", "real", "str", "name", "bool", "null", "ref", "arr"];
 const XREF: &[&str] = &["one-section", "objstm-added-by-update"];
 const ENCRYPTION: &[&str] = &["none", "rc4-128", "aes-128", "aes-256"];
@@ -94,7 +94,18 @@ pub fn twin_case(ch: &mut Chooser, t: &mut Tally) {
     let opts = ObjStmOpts {
         filter: [ObjStmFilter::None, ObjStmFilter::Flate, ObjStmFilter::Hex, ObjStmFilter::A85Flate, ObjStmFilter::Lzw][filter],
         trailing: b"",
-        first_pad: if pad == 1 { 3 } else { 0 },
+        first_pad: match pad {
+            1 => 3,
+            2 => {
+                // no white-space between the table of offsets and the first member: legal when that member begins
+                // with a delimiter
+                if !matches!(raw2[0].1.first(), Some(b'<' | b'[' | b'(' | b'/')) {
+                    return;
+                }
+                usize::MAX
+            }
+            _ => 0,
+        },
         extends: None,
     };
     if xref == 1 {
@@ -266,7 +277,7 @@ pub fn run(tier: Tier, _seed: u64, tally: &mut Tally) -> CheckMeta {
     CheckMeta {
         prop: "C11",
         level: "model_checking",
-        rule: format!("full product of {} values (C03 catalogue: every kind, all kind pairs, depth 20) x position in the object stream {{middle, only, first, last}} x trailing white-space {{LF, SP, none after the last member, CRLF}}, with <= {} deviations among object-stream filter {{flate, hex, a85+flate, lzw}}, /First beyond the header, neighbour kinds before/after (8 alternatives each), object stream added by an incremental update, the document encrypted {{RC4-128, AES-128, AES-256}} (strings of the ordinary twin encrypted one by one, those of the compressed twin only as part of the object stream); each document holds the value as direct object 4 and compressed object 5 and both are resolved and compared with the producer's value. Streams: full product of /Length form {{direct, reference to a direct integer before/after the stream, reference to a compressed integer (plain / flate object stream)}} x data x EOL. Distinct by file hash.", c03::catalogue().vals.len(), bound),
+        rule: format!("full product of {} values (C03 catalogue: every kind, all kind pairs, depth 20) x position in the object stream {{middle, only, first, last}} x trailing white-space {{LF, SP, none after the last member, CRLF}}, with <= {} deviations among object-stream filter {{flate, hex, a85+flate, lzw}}, /First beyond the header or directly after the last offset (no separator, first member beginning with a delimiter), neighbour kinds before/after (8 alternatives each), object stream added by an incremental update, the document encrypted {{RC4-128, AES-128, AES-256}} (strings of the ordinary twin encrypted one by one, those of the compressed twin only as part of the object stream); each document holds the value as direct object 4 and compressed object 5 and both are resolved and compared with the producer's value. Streams: full product of /Length form {{direct, reference to a direct integer before/after the stream, reference to a compressed integer (plain / flate object stream)}} x data x EOL. Distinct by file hash.", c03::catalogue().vals.len(), bound),
         assumptions: vec!["members of an object stream are separated by white-space except after the last one".into()],
         exhaustive: true,
         bounds: json!({"deviations": bound}),
